@@ -329,6 +329,8 @@ func refreshSession(c *hx.Ctx, k int, r *rand.Rand, dur time.Duration) string {
 		c.Nontrivial(hx.H64("refresh", k, len(dgs), between))
 	}
 	c.Add("refresh_sessions", 1)
+	c.Sample(4, map[string]any{"kind": "refresh", "ipv6": v6, "templates": len(tmpls), "template_added_mid_run": added, "pacing": []string{"bursts", "0-2ms gaps", "mostly idle"}[pacing],
+		"application_sends": len(sends), "datagrams_captured": len(dgs), "refresh_copies_per_template": fmt.Sprint(refresh), "app_data_between_datagrams_of_one_round": between})
 	return ""
 }
 
@@ -509,6 +511,9 @@ func closeSession(c *hx.Ctx, k int, r *rand.Rand, j int) {
 	}
 	if len(acked) > 0 {
 		c.Nontrivial(hx.H64("close", k, j, len(acked), ng))
+	}
+	if j == 0 {
+		c.Sample(8, map[string]any{"kind": "close", "proto": proto, "concurrent_closers": ng, "acknowledged_sends_before_close": len(acked), "sends_after_close": sentAfterClose, "failed_after_close": failedAfterClose})
 	}
 	s.Close()
 }
